@@ -52,8 +52,9 @@ Record buscfg := {
 
 (* bus options as New() applies them, left to right *)
 Inductive busopt :=
-| OStore | OBeforeLegacy (b : nat) | OAfterLegacy (b : nat) | OBeforeCtx (b : nat) | OAfterCtx (b : nat)
-| OPanicHandler | OPersistErrHandler | OObs.
+| OStore | OBeforeLegacy (b : nat) | OAfterLegacy (b : nat) | OBeforeCtx (b : nat) | ONilBeforeCtx | OAfterCtx (b : nat)
+| OPanicHandler | OPersistErrHandler | OObs
+| ONilBeforeLegacy | ONilAfterLegacy | ONilAfterCtx.     (* a hook option given a nil function: "no hook" *)
 
 Definition cfg0 : buscfg :=
   {| c_before_legacy := None; c_after_legacy := None; c_before_ctx := []; c_after_ctx := None;
@@ -79,6 +80,12 @@ Definition apply_opt (c : buscfg) (o : busopt) : buscfg :=
                  c_after_ctx := c_after_ctx c;
                  c_panic_handler := c_panic_handler c; c_persist_err_handler := c_persist_err_handler c;
                  c_obs := c_obs c; c_store := c_store c |}
+  | ONilBeforeCtx => {| c_before_legacy := c_before_legacy c; c_after_legacy := c_after_legacy c;
+                 (* removes the user's hook; a store configured earlier keeps persisting *)
+                 c_before_ctx := if c_store c then [BPersist] else [];
+                 c_after_ctx := c_after_ctx c;
+                 c_panic_handler := c_panic_handler c; c_persist_err_handler := c_persist_err_handler c;
+                 c_obs := c_obs c; c_store := c_store c |}
   | OAfterCtx b => {| c_before_legacy := c_before_legacy c; c_after_legacy := c_after_legacy c;
                  c_before_ctx := c_before_ctx c; c_after_ctx := Some b;
                  c_panic_handler := c_panic_handler c; c_persist_err_handler := c_persist_err_handler c;
@@ -95,6 +102,18 @@ Definition apply_opt (c : buscfg) (o : busopt) : buscfg :=
                  c_before_ctx := c_before_ctx c; c_after_ctx := c_after_ctx c;
                  c_panic_handler := c_panic_handler c; c_persist_err_handler := c_persist_err_handler c;
                  c_obs := true; c_store := c_store c |}
+  | ONilBeforeLegacy => {| c_before_legacy := None; c_after_legacy := c_after_legacy c;
+                 c_before_ctx := c_before_ctx c; c_after_ctx := c_after_ctx c;
+                 c_panic_handler := c_panic_handler c; c_persist_err_handler := c_persist_err_handler c;
+                 c_obs := c_obs c; c_store := c_store c |}
+  | ONilAfterLegacy => {| c_before_legacy := c_before_legacy c; c_after_legacy := None;
+                 c_before_ctx := c_before_ctx c; c_after_ctx := c_after_ctx c;
+                 c_panic_handler := c_panic_handler c; c_persist_err_handler := c_persist_err_handler c;
+                 c_obs := c_obs c; c_store := c_store c |}
+  | ONilAfterCtx => {| c_before_legacy := c_before_legacy c; c_after_legacy := c_after_legacy c;
+                 c_before_ctx := c_before_ctx c; c_after_ctx := None;
+                 c_panic_handler := c_panic_handler c; c_persist_err_handler := c_persist_err_handler c;
+                 c_obs := c_obs c; c_store := c_store c |}
   end.
 Definition cfg_of (opts : list busopt) : buscfg := fold_left apply_opt opts cfg0.
 
